@@ -286,6 +286,10 @@ func writeGroupIni(cmd *Command, group *Group, namespace string, writer io.Write
 		default:
 			v, _ := convertToString(val, option.tag)
 
+			if kind == reflect.Ptr {
+				kind = val.Type().Elem().Kind()
+			}
+
 			writeOption(writer, oname, kind, "", v, commentOption, option.iniQuote)
 		}
 
@@ -299,8 +303,15 @@ func writeGroupIni(cmd *Command, group *Group, namespace string, writer io.Write
 	}
 }
 
+// iniNeedsQuote reports whether a string value has to be written as a quoted
+// literal to be read back unchanged: the reader trims surrounding white space
+// and takes a leading double quote for the start of a quoted value.
+func iniNeedsQuote(s string) bool {
+	return !isPrint(s) || s != strings.TrimSpace(s) || strings.HasPrefix(s, "\"")
+}
+
 func writeOption(writer io.Writer, optionName string, optionType reflect.Kind, optionKey string, optionValue string, commentOption bool, forceQuote bool) {
-	if forceQuote || (optionType == reflect.String && !isPrint(optionValue)) {
+	if forceQuote || (optionType == reflect.String && iniNeedsQuote(optionValue)) {
 		optionValue = strconv.Quote(optionValue)
 	}
 
@@ -312,7 +323,16 @@ func writeOption(writer io.Writer, optionName string, optionType reflect.Kind, o
 	fmt.Fprintf(writer, "%s%s =", comment, optionName)
 
 	if optionKey != "" {
-		fmt.Fprintf(writer, " %s:%s", optionKey, optionValue)
+		entry := optionKey + ":" + optionValue
+
+		// A key that would break the line, or be taken for the start of a
+		// quoted value, is protected by quoting the whole entry (the reader
+		// unquotes the entry before it splits off the key)
+		if !isPrint(optionKey) || strings.HasPrefix(optionKey, "\"") {
+			entry = strconv.Quote(entry)
+		}
+
+		fmt.Fprintf(writer, " %s", entry)
 	} else if optionValue != "" {
 		fmt.Fprintf(writer, " %s", optionValue)
 	}
